@@ -32,7 +32,7 @@ from harness import common
 from harness.common import Model
 
 PID = "C08"
-TRANSLATORS = ["T-hashes", "T-storeconsts", "T-storeaxioms"]
+TRANSLATORS = ["T-hashes", "T-storeconsts", "T-preregistry", "T-storeaxioms"]
 
 # Genuine defects of halmos reproduced by this check on the unchanged tree.  A failing input
 # whose `sig` matches one of these is printed as KNOWN-FINDING and does not fail the check.
@@ -201,6 +201,82 @@ def boundary_slots():
             p += 1
         BOUNDARY_SLOTS = (hi, lo)
     return BOUNDARY_SLOTS
+
+
+# ----------------------------------------------------------------------------- precomputed-table constants
+
+def table_entries(r, n512=5, n256=3):
+    """rows of halmos' own precomputed tables (hashes.py as imported): (bits, hash constant, preimage words).
+    512-bit rows with key != slot (the order of the two words matters), key == slot, and 256-bit rows."""
+    import halmos.hashes as hs
+
+    rows512 = sorted(hs.keccak256_512.items())
+    rows256 = sorted(hs.keccak256_256.items())
+    diff = [(h, ab) for h, ab in rows512 if ab[0] != ab[1]]
+    same = [(h, ab) for h, ab in rows512 if ab[0] == ab[1]]
+    pick = [x for x in diff if tuple(x[1]) == (0, 1)][:1]
+    pick += r.sample(diff, min(len(diff), n512 - len(pick)))
+    pick += r.sample(same, min(len(same), 1))
+    out = [(512, h, tuple(ab)) for h, ab in pick]
+    out += [(256, h, (x,)) for h, x in r.sample(rows256, min(len(rows256), n256))]
+    return out
+
+
+def _plus(t, off):
+    return t if off == 0 else ("Add", [t, ("K", off)])
+
+
+def _table_offset(r, h):
+    """0 or a small offset that stays inside the hash's 2^16 bucket (outside: known finding)"""
+    off = r.choice([0, 0, 1, 3])
+    return off if (h + off) >> 16 == h >> 16 else 0
+
+
+def table_programs(r, tier):
+    """a location written as a PUSH32 constant of a precomputed-table row (+ small offset) and the
+    SAME location reached by a run-time SHA3 of the row's preimage (concrete words / symbolic key
+    or index), store through one spelling and load through the other, both directions, both layouts"""
+    P = []
+    for bits, h, pre in table_entries(r, *((5, 3) if tier == "quick" else (40, 20))):
+        off = _table_offset(r, h)
+        const = ("K", h + off)
+        if bits == 512:
+            a, b = pre
+            conc = _plus(("S512", ("K", a), ("K", b)), off)
+            symb = _plus(("S512", ("V", 0), ("K", b)), off)
+            envs = [[a, 0, 7], [a + 1, 0, 7], [b, 0, 7]]
+        else:
+            (x,) = pre
+            conc = _plus(("S256", ("K", x)), off)
+            symb = ("Add", [("S256", ("K", x)), ("V", 0)])
+            envs = [[off, 0, 7], [off + 1, 0, 7]]
+        name = f"table{bits}-{'.'.join(map(str, pre))}+{off}"
+        for layout in ("solidity", "generic"):
+            # constant first: its preimage has not been hashed on this path when it is decoded
+            P.append({"ops": [("sstore", const, ("K", 0x2A)), ("sload", symb), ("sload", conc), ("sload", const)],
+                      "nargs": 3, "layout": layout, "tags": ["table-constant"], "name": name + "-const-then-hash", "envs": envs})
+            P.append({"ops": [("sstore", symb, ("V", 2)), ("sload", const), ("sstore", const, ("K", 0x42)), ("sload", symb)],
+                      "nargs": 3, "layout": layout, "tags": ["table-constant"], "name": name + "-hash-then-const", "envs": envs})
+    return P
+
+
+def table_groups(r, tier):
+    """L1a groups (empty per-path registry): the constant spelling of a precomputed-table row and
+    the hash-term spellings of the same location must decode to the same chunk and key"""
+    G = []
+    for bits, h, pre in table_entries(r, *((8, 4) if tier == "quick" else (60, 30))):
+        off = _table_offset(r, h)
+        if bits == 512:
+            a, b = pre
+            locs = [("K", h + off), _plus(("S512", ("V", 0), ("K", b)), off), ("S512", ("V", 1), ("K", b))]
+            envs = [[a, a, 0], [a, a + 1, 0], [a + 1, b, 0]]
+        else:
+            (x,) = pre
+            locs = [("K", h + off), ("Add", [("S256", ("K", x)), ("V", 0)]), ("K", x)]
+            envs = [[off, 0, 0], [off + 1, 0, 0], [0, 0, 0]]
+        G.append({"reg": [], "locs": locs, "envs": envs, "tags": [["table-constant"]] + [[] for _ in locs[1:]], "allh": [h],
+                  "canon": locs, "flat_add": True, "layout_types": {"table": f"{bits}:{pre}"}})
+    return G
 
 
 def gen_group(r, tier, p_unreg=0.06, special=None):
@@ -748,7 +824,7 @@ def run_l2(rep, tier, r):
     from harness import pool
 
     n = 240 if tier == "quick" else 3000
-    progs = corpus_programs() + [gen_program(r, tier) for _ in range(n)]
+    progs = corpus_programs() + table_programs(r, tier) + [gen_program(r, tier) for _ in range(n)]
     tasks = [(r.getrandbits(32), p) for p in progs]
     bs = 10
     batches = [tasks[i:i + bs] for i in range(0, len(tasks), bs)]
@@ -871,6 +947,7 @@ def run(rep, tier):
     # ---- L1a
     ngroups = 260 if tier == "quick" else 4000
     groups = [gen_group(r, tier, special="boundary" if i % 9 == 0 else None) for i in range(ngroups)]
+    groups = table_groups(r, tier) + groups
     if tier == "quick":
         impl = [impl_group(g) for g in groups]     # ~20 ms per group: cheaper than forking a pool
     else:
